@@ -104,6 +104,17 @@ def c07_exhaustive(tier):
             yield f'P g {gens.hx("pkg:t/" + s + "/n")}'
             yield f'P g {gens.hx("pkg:t/n#" + s)}'
             if k <= 2: yield f'P t {gens.hx("pkg:npm/" + s + "/n#" + s)}'
+    for c in gens.gen_lengths(('g', 't')):
+        if c[0] == 'P' and ('642f642f642f' in c): yield c       # many segments, then '..' / empty pieces
+    for n in [30, 31, 32, 33, 64]:
+        for tail in ['../../../etc/passwd', 'a//b/./c', '%2E%2E/x', '..', 'a%2Fb']:
+            yield f'P g {gens.hx("pkg:t/n#" + "d/" * n + tail)}'
+            yield f'P t {gens.hx("pkg:npm/n@1#" + "d/" * n + tail)}'
+            yield f'P g {gens.hx("pkg:t/" + "d/" * n + tail + "/n")}'
+    for body in ['a%252Fb', '%252F', '%252E%252E/%252e%252e/etc', '.%252E/x', 'a%25252Fb']:
+        yield f'P g {gens.hx("pkg:t/" + body + "/n")}'
+        yield f'P g {gens.hx("pkg:t/n#" + body)}'
+        yield f'P t {gens.hx("pkg:golang/" + body + "/n#" + body)}'
     for tail in ['/', '//', '/@1', '//@1.0', '/?k=v', '/#s']:
         for body in ['ns/name', 'a/b/name', 'name', 'a//name']:
             yield f'P g {gens.hx("pkg:t/" + body + tail)}'
